@@ -425,7 +425,9 @@ class AllEventSelectionMethod(
                 (src_idxs, evt_idxs) = src_evt_idxs
 
         if ret_original_evt_idxs:
-            return (events, (src_idxs, evt_idxs), events.indices)
+            # Return a copy of the indices, because the events.indices array is
+            # the cached array used for all selections of these events.
+            return (events, (src_idxs, evt_idxs), np.copy(events.indices))
 
         return (events, (src_idxs, evt_idxs))
 
